@@ -47,6 +47,15 @@ def rs_exhaustive(pts, rng, apis=("recv",), cbs=(None,), orders=1, probe="each",
 
 
 LENGTHS = list(range(1, 81)) + [96, 100, 127, 128, 129, 255, 256, 257, 1000, 1316, 1400, 1500]
+# lengths around the sizes at which code that blocks, slices or narrows a length changes regime (pages, 16-bit counters)
+BIG_LENGTHS = [2048, 4095, 4096, 4097, 8192, 12288, 16384, 32768, 65535, 65536, 65537, 65560, 70000, 131072]
+
+
+def pick_len(rng, n):
+    if n <= 48 and rng.random() < 0.08:
+        return rng.choice(BIG_LENGTHS)
+    return rng.choice(LENGTHS)
+
 
 
 def random_ldpc(rng, count, kmax, cbs=(None,), apis=("recv", "setavail"), payloads=("id", "rnd"), dup=True,
@@ -63,7 +72,7 @@ def random_ldpc(rng, count, kmax, cbs=(None,), apis=("recv", "setavail"), payloa
         seed = rng.randint(1, 2 ** 31 - 2)
         payload = rng.choice(payloads)
         extra = rng.choice([0, 0, 1, 3, 8])
-        length = gen.need_len(3, k, 0) + extra if payload == "id" else rng.choice(LENGTHS)
+        length = gen.need_len(3, k, 0) + extra if payload == "id" else pick_len(rng, k + r)
         p = P(3, k, r, N1=n1, seed=seed, length=length, payload=payload, align=rng.choice([0, 0, 1, 3, 5, 7]))
         n = p.n
         # loss rate around the decoding threshold so that both outcomes occur
@@ -76,8 +85,60 @@ def random_ldpc(rng, count, kmax, cbs=(None,), apis=("recv", "setavail"), payloa
         api = rng.choice(apis)
         if api == "setavail":
             sub = sorted(set(sub))
-        execs.append(gen.decode_exec(p, sub, api=api, finish=rng.choice(finish_choices), cb=rng.choice(cbs),
-                                     probe=rng.choice(probe_choices) if n <= 40 else "end"))
+        fin = rng.choice(finish_choices)
+        execs.append(gen.decode_exec(p, sub, api=api, finish=fin, cb=rng.choice(cbs),
+                                     probe=rng.choice(probe_choices) if n <= 40 else "end",
+                                     both=rng.random() < 0.15, refinish=fin and rng.random() < 0.3))
+    return execs
+
+
+def threshold_ldpc(rng, count, apis=("recv", "setavail"), finish=True, cbs=(None,)):
+    """many small codes (fresh k, n-k, N1, seed each time) x received sets whose size is at the decoding threshold
+    (k-1 .. k+3): the regime in which peeling gets somewhere, stalls, and the ML step sees a partly solved system.
+    Executions are tiny, so a quick run affords hundreds of codes."""
+    execs = []
+    for _ in range(count):
+        k = rng.randint(2, 14)
+        r = rng.randint(3, 14)
+        n1 = rng.randint(3, min(r, 5))
+        seed = rng.choice([1, 1, 2, 3, rng.randint(1, 2 ** 31 - 2)])
+        p = P(3, k, r, N1=n1, seed=seed)
+        size = min(p.n, max(1, k + rng.choice([-1, 0, 0, 1, 1, 2, 3])))
+        if rng.random() < 0.5:
+            sub = rng.sample(range(p.n), size)
+        else:       # losses in bursts: runs of consecutive repair symbols survive (chains along the staircase)
+            start = rng.randrange(p.n)
+            sub = sorted({(start + i) % p.n for i in range(size)})
+            for _ in range(rng.randint(0, 2)):
+                if sub:
+                    sub[rng.randrange(len(sub))] = rng.randrange(p.n)
+            sub = list(dict.fromkeys(sub))
+            rng.shuffle(sub)
+        api = rng.choice(apis)
+        execs.append(gen.decode_exec(p, sorted(sub) if api == "setavail" else sub, api=api, finish=finish, cb=rng.choice(cbs), probe="end"))
+    return execs
+
+
+def big_symbols(rng, count, cbs=(None,)):
+    """every codec with symbol lengths at the page / 16-bit sizes (random payloads: the driver reports equality
+    with the original symbol), small codes, received sets at the threshold so that symbols really get decoded"""
+    execs = []
+    for i in range(count):
+        c = (1, 2, 2, 3, 3, 3)[i % 6]
+        length = BIG_LENGTHS[((i // 6) * 5) % len(BIG_LENGTHS)] if rng.random() < 0.7 else rng.choice(BIG_LENGTHS)
+        if c == 3:
+            k = rng.randint(3, 12); r = rng.randint(4, 9)
+            p = P(3, k, r, N1=rng.randint(3, min(r, 5)), seed=rng.randint(1, 10 ** 6), length=length, payload="rnd", align=rng.choice([0, 1, 3]))
+            size = min(p.n, k + rng.choice([0, 1, 1, 2]))
+        else:
+            m = 0 if c == 1 else (4, 8)[(i // 3) % 2]
+            k = rng.randint(2, 7); r = rng.randint(2, 5)
+            p = P(c, k, r, m=m, length=length, payload="rnd", align=rng.choice([0, 1, 3]))
+            size = k
+        sub = rng.sample(range(p.n), size)
+        api = rng.choice(["recv", "setavail"])
+        execs.append(gen.decode_exec(p, sorted(sub) if api == "setavail" else sub, api=api, finish=True, cb=rng.choice(cbs), probe="end",
+                                     refinish=rng.random() < 0.3))
     return execs
 
 
@@ -124,7 +185,7 @@ def random_rs(rng, count, nmax, cbs=(None,), apis=("recv", "setavail"), payloads
         n = rng.randint(2, min(nmax, lim))
         k = rng.randint(1, n - 1)
         payload = rng.choice(payloads)
-        length = gen.need_len(c, k, m) + rng.choice([0, 0, 1, 5, 11, 16, 23, 40]) if payload == "id" else rng.choice(LENGTHS)
+        length = gen.need_len(c, k, m) + rng.choice([0, 0, 1, 5, 11, 16, 23, 40]) if payload == "id" else pick_len(rng, n)
         p = P(c, k, n - k, m=m, length=length, payload=payload, align=rng.choice([0, 0, 1, 2, 7]))
         cnt = rng.choice([k, k, k + 1, max(0, k - 1), rng.randint(0, n)])
         cnt = min(cnt, n)
@@ -134,8 +195,10 @@ def random_rs(rng, count, nmax, cbs=(None,), apis=("recv", "setavail"), payloads
         api = rng.choice(apis)
         if api == "setavail":
             sub = sorted(set(sub))
-        execs.append(gen.decode_exec(p, sub, api=api, finish=rng.choice([True, True, False]), cb=rng.choice(cbs),
-                                     probe="each" if n <= 12 else "end"))
+        fin = rng.choice([True, True, False])
+        execs.append(gen.decode_exec(p, sub, api=api, finish=fin, cb=rng.choice(cbs),
+                                     probe="each" if n <= 12 else "end",
+                                     both=rng.random() < 0.15, refinish=fin and rng.random() < 0.3))
     return execs
 
 
@@ -346,6 +409,7 @@ def workload(pid, tier, rng):
         execs += big_ldpc(rng, [400, 700] if q else [400, 700, 1100, 2000, 5000])
         execs += random_rs(rng, 300 if q else 3000, 40 if q else 255, cbs=cbs_all)
         execs += random_rs(rng, 20 if q else 300, 255, cbs=(None, "buf"), payloads=("rnd",))
+        execs += big_symbols(rng, 36 if q else 600, cbs=cbs_all)
     elif pid == "C02":
         execs += rs_exhaustive(rs_small, rng, apis=("recv", "setavail"), orders=2 if q else 4, probe="each")
         execs += rs_exhaustive(rs_mid, rng, apis=("recv", "setavail"), orders=1, probe="end", maxsub=150 if q else 1500)
@@ -363,6 +427,7 @@ def workload(pid, tier, rng):
         execs += ldpc_exhaustive(ld_small, rng, apis=("recv", "setavail"), finish=(True,), orders=1 if q else 2, probe="end")
         execs += ldpc_exhaustive(ld_mid, rng, apis=("recv",), finish=(True,), orders=1, probe="end", maxsub=800 if q else 8000)
         execs += dense_ldpc(rng, 100 if q else 1500, finish_choices=(True,), probe="end")
+        execs += threshold_ldpc(rng, 800 if q else 12000)
         execs += big_ldpc(rng, [350, 600] if q else [350, 600, 1100, 2500, 6000])
         for sd in (1, 7, 12345):
             ex = random_ldpc(rng, 60 if q else 600, 48 if q else 64, apis=("recv", "setavail"), finish_choices=(True,),
@@ -388,6 +453,7 @@ def workload(pid, tier, rng):
             execs.append(gen.decode_exec(p, full, api="setavail", finish=True, probe="each", double_finish=True))
         execs += random_ldpc(rng, 100 if q else 15000, 40 if q else 64, cbs=cbs_all)
         execs += random_rs(rng, 100 if q else 15000, 40 if q else 255, cbs=cbs_all)
+        execs += big_symbols(rng, 24 if q else 400, cbs=cbs_all)
     elif pid == "C11":
         execs += ldpc_exhaustive(ld_small[:4 if q else 8], rng, apis=("recv", "setavail"), finish=(True,),
                                  cbs=("buf", "null", "mix"), orders=1, probe="end")
@@ -396,12 +462,14 @@ def workload(pid, tier, rng):
         execs += random_ldpc(rng, 600 if q else 25000, 40 if q else 64, cbs=("buf", "null", "mix"))
         execs += dense_ldpc(rng, 300 if q else 12000, cbs=("buf", "null", "mix"), finish_choices=(True, False), probe="end")
         execs += random_rs(rng, 600 if q else 25000, 40 if q else 255, cbs=("buf", "null", "mix"))
+        execs += big_symbols(rng, 48 if q else 800, cbs=("buf", "buf", "null", "mix"))
     elif pid == "C08":
         execs += release_everywhere(ld_small[:8 if q else 12] + [rs_small[i] for i in range(0, len(rs_small), 3 if q else 1)], rng)
         execs += random_ldpc(rng, 600 if q else 25000, 40 if q else 64, cbs=cbs_all)
         execs += dense_ldpc(rng, 300 if q else 12000, cbs=cbs_all, finish_choices=(True, False), probe="end")
         execs += random_rs(rng, 600 if q else 25000, 40 if q else 255, cbs=cbs_all)
         execs += big_ldpc(rng, [400] if q else [400, 1200, 3000])
+        execs += big_symbols(rng, 24 if q else 400, cbs=cbs_all)
     elif pid == "C07":
         # lengths, alignments, limits
         for length in ([1, 2, 3, 4, 5, 7, 8, 9, 12, 15, 16, 17, 20, 24, 28, 31, 32, 33, 44] + ([] if q else [47, 63, 64, 65, 100, 1024, 1316])):
@@ -422,6 +490,7 @@ def workload(pid, tier, rng):
         execs += dense_ldpc(rng, 300 if q else 12000, cbs=cbs_all, finish_choices=(True, False), probe="end")
         execs += random_rs(rng, 800 if q else 30000, 60 if q else 255, cbs=cbs_all)
         execs += big_ldpc(rng, [500] if q else [500, 1500, 4000])
+        execs += big_symbols(rng, 36 if q else 600, cbs=cbs_all)
         if not q:
             p = P(3, 2000, 1000, N1=3, seed=9, length=8, payload="rnd")
             execs.append(gen.decode_exec(p, rng.sample(range(p.n), 2300), finish=True, probe="end"))
@@ -433,7 +502,8 @@ MODELS = {
     "C01": [("LdpcIt_MC", "LdpcIt_quick", "LdpcIt_thorough")],
     "C04": [("LdpcIt_MC", "LdpcIt_quick", "LdpcIt_thorough")],
     "C03": [("LdpcMl_MC", "LdpcMl_quick", "LdpcMl_thorough")],
-    "C02": [("RsSession", "RsSession", "RsSession_thorough"), ("ApiModel_MC", "ApiModel", "ApiModel")],
+    "C02": [("RsSession", "RsSession", "RsSession_thorough"), ("ApiModel_MC", "ApiModel", "ApiModel"),
+            ("RsCodecModel", "RsCodec_quick", "RsCodec_gf16"), ("RsCodecModel", "RsCodec_gf256_quick", "RsCodec_gf256")],
     "C08": [("ApiModel_MC", "ApiModel", "ApiModel"), ("LdpcIt_MC", "LdpcIt_quick", "LdpcIt_thorough"), ("LdpcIt_MC", "LdpcIt_quick_cb", "LdpcIt_quick_cb")],
     "C10": [("RsSession", "RsSession", "RsSession_thorough"), ("LdpcMl_MC", "LdpcMl_quick", "LdpcMl_thorough"),
             ("ApiModel_MC", "ApiModel", "ApiModel")],
@@ -475,7 +545,7 @@ def run(pid, tier):
         for (spec, cq, ct) in MODELS.get(pid, []):
             cfg = cq if tier == "quick" else ct
             mc = vlib.run_tlc(os.path.join(vlib.SPEC, spec + ".tla"), os.path.join(vlib.SPEC, cfg + ".cfg"),
-                              os.path.join(bdir, "mc_" + spec), workers=8, xmx="6g", timeout=3000)
+                              os.path.join(bdir, "mc_" + cfg), workers=8, xmx="6g", timeout=3000)
             if mc.violated or "Model checking completed. No error" not in mc.out:
                 raise vlib.Infra("%s/%s: the model itself violates an invariant (design-level problem or spec bug):\n%s"
                                  % (spec, cfg, mc.out[-3000:]))
